@@ -96,6 +96,12 @@ func summarize(res *vc.PassResult, verbose bool) {
 				if o.Detail != "" {
 					fmt.Println("    detail:", o.Detail)
 				}
+				if verbose {
+					fmt.Println("    trace:", strings.Join(o.FailTrace, " "))
+					for _, e := range o.FailEvents {
+						fmt.Println("      ev:", e)
+					}
+				}
 			}
 		}
 	}
